@@ -6,7 +6,7 @@
    Run's and Reload's KStopPending -> LStopCallS -> LShutdownRet); the drain itself is this model.
    Time unit: milliseconds.  This file contains only statements. *)
 From Coq Require Import List NArith Bool.
-From GS Require Import LTS HttpDrain HttpDrainProofs.
+From GS Require Import LTS HttpDrain HttpDrainProofs HttpCfg HttpServer HttpInv HttpInvStep2 HttpProps.
 Import ListNotations.
 Open Scope N_scope.
 
@@ -70,7 +70,29 @@ Theorem C14_check_sound : forall drain gap ls s l s' t0,
               (match l with DShutRetOk => true | _ => false end) (now s' - t0) (map q_done (reqs s')) = true.
 Proof. exact drain_check_sound. Qed.
 
+(* DrainTimeout = 0 (accepted by NewConfig; a negative value is the same already expired context): Shutdown
+   returns at the very instant it is called - it does not wait for anything, in particular not for a default. *)
+Theorem C14_zero_drain : forall gap ls s t0 t ok,
+  run (dstep 0 gap) dinit ls = Some s -> sd_start s = Some t0 -> sd_ret s = Some (t, ok) -> t = t0.
+Proof.
+  intros gap ls s t0 t ok Hr Hs Hret. destruct (bounded 0 gap ls s t0 t ok Hr Hs Hret) as (A & B & _).
+  rewrite N.add_0_r in B. now apply N.le_antisymm.
+Qed.
+
+(* Which server is drained (protocol model, every schedule, any number of earlier reloads, restarts and failed
+   boots): whenever Run's or Reload's stopServer is about to run and a server of this runner is still un-shut,
+   the shutdown guard is armed for it and r.server points at it - the no-op path is closed and
+   http.Server.Shutdown is called on exactly that server.  (The guard is re-armed by every boot.) *)
+Theorem C14_stop_reaches_live_server : forall sl validated mux_ok c0 ls s sid sv,
+  no_foreign ls -> run (step sl validated mux_ok) (init c0) ls = Some s ->
+  crashed s = false -> kpc s = KStopPending ->
+  nth_error (servers s) sid = Some sv -> s_shut sv = false ->
+  step sl validated mux_ok s LStopSkip = None /\ step sl validated mux_ok s (LStopCallS sid) <> None.
+Proof. exact stop_reaches_live_server. Qed.
+
 Print Assumptions C14_no_new.
+Print Assumptions C14_zero_drain.
+Print Assumptions C14_stop_reaches_live_server.
 Print Assumptions C14_check_sound.
 Print Assumptions C14_complete.
 Print Assumptions C14_prompt.
@@ -106,4 +128,13 @@ Proof. vm_compute. reflexivity. Qed.
 Example C14_ex_check_rejects_late : drain_check 300 20 40 150 [90] true 320 [true] = false.
 Proof. vm_compute. reflexivity. Qed.
 Example C14_ex_check_rejects_cut : drain_check 300 20 40 150 [100; 500] false 300 [false; false] = false.
+Proof. vm_compute. reflexivity. Qed.
+
+(* DrainTimeout 0 with a request in flight: the only continuation after the call is the immediate return *)
+Example C14_ex_zero_drain :
+  exists s, run (dstep 0 20) dinit [DNewReq 0 300; DShutStart; DShutRetTimeout] = Some s /\ sd_ret s = Some (0, false).
+Proof. eexists. split; [vm_compute; reflexivity|reflexivity]. Qed.
+Example C14_ex_zero_drain_no_wait : run (dstep 0 20) dinit [DNewReq 0 300; DShutStart; DTick 1] = None.
+Proof. vm_compute. reflexivity. Qed.
+Example C14_ex_check_zero_drain_rejects_wait : drain_check 0 400 40 150 [298] true 305 [true] = false.
 Proof. vm_compute. reflexivity. Qed.
